@@ -260,3 +260,79 @@ func (r *Run) Finish() int {
 		r.ID, r.Tier, r.evaluations, nd, r.states, r.transitions, r.exhaustive, nNew, len(knownSeen), time.Since(r.start).Seconds())
 	return exit
 }
+
+// ---- worker protocol: a worker process runs part of a check and exports its Run ----
+
+type exported struct {
+	Evaluations int64                  `json:"evaluations"`
+	Distinct    map[string]int64       `json:"distinct"`
+	Samples     []interface{}          `json:"samples"`
+	States      int64                  `json:"states"`
+	Transitions int64                  `json:"transitions"`
+	Traces      int64                  `json:"traces"`
+	Extra       map[string]interface{} `json:"extra"`
+	Capped      []string               `json:"capped"`
+	Violations  []*Violation           `json:"violations"`
+	ViolCount   map[string]int64       `json:"viol_count"`
+}
+
+// Export serialises everything recorded so far (worker side).
+func (r *Run) Export() []byte {
+	r.mu.Lock()
+	defer r.mu.Unlock()
+	e := exported{Evaluations: r.evaluations, Distinct: r.distinct, Samples: r.samples, States: r.states,
+		Transitions: r.transitions, Traces: r.traces, Extra: r.extra, Capped: r.capped, ViolCount: r.violCount}
+	for _, v := range r.violations {
+		e.Violations = append(e.Violations, v)
+	}
+	b, _ := json.Marshal(e)
+	return b
+}
+
+// Import merges a worker's export (driver side).
+func (r *Run) Import(b []byte) error {
+	var e exported
+	if err := json.Unmarshal(b, &e); err != nil {
+		return err
+	}
+	r.mu.Lock()
+	defer r.mu.Unlock()
+	r.evaluations += e.Evaluations
+	for k, v := range e.Distinct {
+		r.distinct[k] += v
+	}
+	for _, s := range e.Samples {
+		if m, ok := s.(map[string]interface{}); ok {
+			k, _ := m["kind"].(string)
+			if r.sampleKeys[k] || len(r.samples) >= 12 {
+				continue
+			}
+			r.sampleKeys[k] = true
+		}
+		r.samples = append(r.samples, s)
+	}
+	r.states += e.States
+	r.transitions += e.Transitions
+	r.traces += e.Traces
+	for k, v := range e.Extra {
+		if f, ok := v.(float64); ok {
+			cur, _ := r.extra[k].(int64)
+			r.extra[k] = cur + int64(f)
+		} else if _, have := r.extra[k]; !have {
+			r.extra[k] = v
+		}
+	}
+	if len(e.Capped) > 0 {
+		r.exhaustive = false
+		r.capped = append(r.capped, e.Capped...)
+	}
+	for _, v := range e.Violations {
+		if _, ok := r.violations[v.Signature]; !ok {
+			r.violations[v.Signature] = v
+		}
+	}
+	for k, n := range e.ViolCount {
+		r.violCount[k] += n
+	}
+	return nil
+}
